@@ -47,6 +47,10 @@ RULES = {
         (r"logsubexp: Lt->LtE", "equivalent", "x = y would need two equal consecutive log-volumes; they decrease strictly for every representable nlive"),
     ],
     "C05": [
+        (r"debug_enabled", "outside", "debug logging"),
+        (r'd\["(final_ks_statistic|final_p_value|insertion_indices|information|training_time|population_time)"\]', "outside",
+         "diagnostic entries of the result dictionary; the property names evidence, uncertainty, weights and samples"),
+        (r"self\.live_points = None", "outside", "the live points were already appended to the nested samples; no clause of C05 reads the attribute afterwards"),
         (r"effective_n_posterior_samples", "outside", "the effective sample size is C16's clause (its check exercises the state classes since round 3); C05 recomputes evidence, uncertainty and weights"),
     ],
     "C10": [
